@@ -357,7 +357,6 @@ package pickle
 //@   loop over for#3: invariant e != nil && e.memo != nil && (comparable(x) ==> has(e.memo, x))
 //@   loop over for#4: invariant e != nil && e.memo != nil && (comparable(x) ==> has(e.memo, x))
 //@   loop over batch#2: invariant e != nil && e.memo != nil && (comparable(x) ==> has(e.memo, x))
-//@   loop 6: invariant e != nil && e.memo != nil && (comparable(x) ==> has(e.memo, x))
 
 // ---------------------------------------------------------------- C07: memo ids are positional over a session
 // Memo ids are implicit: the n-th memoized value has id n on both sides, for as long as an Encoder
